@@ -30,7 +30,7 @@ def main():
   build = None
   try:
     build = core.lean_build(mod.LEAN_TARGETS, audit_file=f'MM/Audit/{prop}.lean',
-                            expected_theorems=mod.THEOREMS)
+                            expected_theorems=mod.THEOREMS, recheck=(args.tier == 'thorough'))
     model_ok = build.model_ok
     # a broken proof or fragment deepens the search for a failing input
     intensify = not build.proof_ok
